@@ -121,6 +121,10 @@ impl<E: ElemT> TableWorld<E> {
             Out::Diverge(n) => vio!(self, format!("diverge/{}", self.ctx.op_kind), "more than {n} callbacks in one operation"),
             Out::Panic(msg) => {
                 self.ctx.drain_callback_violations()?;
+                if msg.contains("Went past end of probe sequence") {
+                    // the debug assertion that stands in for a probe loop that would never end
+                    vio!(self, format!("hang/probe-{}", self.ctx.op_kind), "a probe sequence visited every group without finding an EMPTY byte (non-termination in a release build): {msg}")
+                }
                 vio!(self, format!("panic/{}", self.ctx.op_kind), "unexpected panic: {msg}")
             }
         }
